@@ -14,26 +14,32 @@ from . import cli_common as cc
 from . import stft_common as sc
 
 LEVEL = "other"
-TECHNIQUE = ("exact-cover rule on the chunk driver (forward substitution of the slice bounds), sibling agreement of the "
-             "streaming and one-shot framing geometry as closed forms, CFG must-write rule on the carried state")
+TECHNIQUE = ("exact-cover rule on the chunk driver (forward substitution of the slice bounds); closed-form summary of the "
+             "one-chunk history (compute_chunk with an idempotent-loop summary, then finalize) compared with compute_full's "
+             "closed forms - identical normal forms where possible, otherwise exact evaluation of the extracted integer "
+             "formulas on a declared finite grid (bounded); sibling agreement of the streaming and one-shot framing "
+             "geometry; CFG must-write rule on the carried state")
 EXPLANATION = (
-    "Decides necessary structural conditions only: frame_by_frame_calculation is an exact cover (the slice processed "
-    "and the slice kept share one bound on one array, the loop ends only when the signal is exhausted, finalize is "
-    "called once after it, results are concatenated in production order, the started guard comes first); "
-    "FrameComputer.compute_full delegates to it and the short-integration compute_full is compute_chunk + finalize; "
-    "the streaming STFT path (first-frame branch of compute_chunk, finalize) uses the same left padding, frame count "
-    "formula, right padding and 'symmetric' mode as the documented one-shot geometry in all three framing "
-    "configurations; the short-integration finalize uses the documented frame-count formula on its buffered length; "
-    "the carried state (buffer fill count, started flag) is written on every normal exit of compute_chunk. Does NOT "
-    "decide equality of values and frame counts over all chunkings and lengths: that depends on arithmetic over the "
-    "history of buffer fill counts (symbolic execution, outside this family). The two discrepancies named in the "
-    "property's why_tests_cant are therefore neither claimed nor reported.")
+    "Decides necessary conditions: frame_by_frame_calculation is an exact cover (the slice processed and the slice "
+    "kept share one bound on one array, the loop ends only when the signal is exhausted, finalize is called once after "
+    "it, results are concatenated in production order, the started guard comes first); FrameComputer.compute_full "
+    "delegates to it and the short-integration compute_full is compute_chunk + finalize; for the history 'whole signal "
+    "in one compute_chunk call, then finalize' the number of frames emitted by the two calls, as closed forms in "
+    "(N, L, S) extracted by forward substitution, adds up to compute_full's count (none below L//2+1) for all four "
+    "frame_style / kaldi_shift configurations, and finalize never reflects further back than the samples it pads "
+    "unless that array is the whole signal - both on the grid L in 1..12,16,25, S <= L, N <= 3L+2 (bounded, stated per "
+    "obligation); finalize and the first-frame branch of compute_chunk use the same left padding, frame count, right "
+    "padding, frame bounds and 'symmetric' mode as compute_full's documented geometry; the short-integration finalize "
+    "owes (buffered + S//2)//S frames as a total function of its carried state; the carried state is written on every "
+    "normal exit of compute_chunk and reset by finalize. Does NOT decide equality of the *values* of the frames, nor "
+    "histories of more than one chunk (chunk-invariance of the ring buffer): those quantify over run-time histories.")
 
 
 def run(ctx):
     ctx.rule(driver)
     ctx.rule(delegation)
     ctx.rule(stft_streaming)
+    ctx.rule(_full_sibling)
     ctx.rule(single_chunk_history)
     ctx.rule(si_finalize)
     ctx.rule(carry)
@@ -316,6 +322,13 @@ def _tail_depth(ctx, R, prog, f, ev, st):
     ctx.need(len(alloc) == 1 and isinstance(alloc[0].value, ast.Call) and alloc[0].value.args and astq.text(alloc[0].value.args[0]) == "self._frame_length", R,
              "the sample buffer is not allocated with frame_length samples")
     return S.sub(sc.L, ev.eval_at(pst, low))
+
+
+def _full_sibling(ctx, R="R-C01-geom-siblings"):
+    """the one-shot side of the sibling comparison: compute_full's own geometry against the same closed forms the streaming
+    path is held to (frame count, paddings, frame bounds per frame style / kaldi_shift)"""
+    from .c02 import geom
+    geom(ctx, R)
 
 
 def single_chunk_history(ctx, R="R-C01-one-chunk-history"):
